@@ -158,7 +158,9 @@ def run_path_c02(menu, path, is_leaf, inv_props=()):
 # ---------------------------------------------------------------------------
 # C10: feature switching model
 
-def run_path_c10(menu, path, is_leaf):
+def run_path_c10(menu, path, is_leaf, alias=None):
+    """alias: {clause: property id} - report a clause under another property (the value
+    oracles of C08 / C09 are re-used for histories that switch features on and off)"""
     w = worlds.world(menu["world"])
     tracks = explore.rebuild(w, menu["seed"], [])
     ann_keys = set(tracks.annotators.all_features)
@@ -182,6 +184,7 @@ def run_path_c10(menu, path, is_leaf):
             ctx = "core-ids-recomputed-in-history"
         else:
             ctx = "plain"
+        prop = (alias or {}).get(clause, prop)
         return globals()["_vio"](prop, clause, detail, menu, path, ctx=ctx)
 
     for i, ev in enumerate(path):
